@@ -93,47 +93,17 @@ Proof.
   rewrite insert_by_in, IH. split; intros [H|H]; auto.
 Qed.
 
-(* the path clean-up of Report.newGraph is applied again on every rebuild; when one application
-   reaches a fixed point on the profile's file names, every rebuild sees the same profile *)
-Lemma rebuild_stable : forall o pr, paths_stable o pr = true -> rebuild o (rebuild o pr) = rebuild o pr.
-Proof.
-  intros o pr H. unfold rebuild. cbn [pr_prof pr_ix pr_total]. f_equal.
-  unfold trim_files. cbn [p_function p_sampletype p_defaultsampletype p_sample p_mapping p_location p_comments
-                          p_docurl p_dropframes p_keepframes p_timenanos p_durationnanos p_periodtype p_period].
-  f_equal. rewrite map_map. apply map_ext_in. intros f Hin. cbn [f_id f_name f_sysname f_file f_startline].
-  unfold paths_stable in H. rewrite forallb_forall in H. specialize (H f Hin). apply String.eqb_eq in H.
-  rewrite H. reflexivity.
-Qed.
-
-Lemma pass1_state : forall o pr, paths_stable o pr = true -> snd (trim_pass1 o pr) = rebuild o pr.
-Proof.
-  intros o pr H. unfold trim_pass1. cbv zeta.
-  destruct (0 <? o_nodecutoff o); [|reflexivity].
-  match goal with |- context [if ?c then _ else _] => destruct c end; [|reflexivity].
-  simpl snd. apply rebuild_stable. exact H.
-Qed.
-
-Lemma pass1_nodes : forall o pr x, paths_stable o pr = true ->
-  In x (g_nodes (fst (fst (trim_pass1 o pr)))) -> In x (g_nodes (report_graph o (rebuild o pr) None)).
-Proof.
-  intros o pr [k w] H. unfold trim_pass1. cbv zeta.
-  destruct (0 <? o_nodecutoff o); [|auto].
-  match goal with |- context [if ?c then _ else _] => destruct c end; [|auto].
-  simpl fst. rewrite (rebuild_stable o pr H). unfold report_graph.
-  apply kept_nodes_unchanged_graph_lemma. exact ni_eqb_spec.
-Qed.
-
 (* every entry a text (top / tree) report shows, for any nodecount, node cutoff, edge cutoff and sort
-   order, is an entry of the untrimmed graph of the same report, with the same numbers -- provided
-   the report's path clean-up is stable on the profile's file names (F40 otherwise) *)
-Theorem text_report_nodes_unchanged_lemma : forall o pr n v, paths_stable o pr = true ->
+   order, is an entry of the untrimmed graph of the same report, with the same numbers *)
+Theorem text_report_nodes_unchanged_lemma : forall o pr n v,
   In (n, v) (g_nodes (t_g (new_trimmed_text o pr))) -> In (n, v) (g_nodes (report_graph o (rebuild o pr) None)).
 Proof.
-  intros o pr n v HS. unfold new_trimmed_text.
-  pose proof (pass1_state o pr HS) as H2.
-  pose proof (fun x => pass1_nodes o pr x HS) as H1.
-  destruct (trim_pass1 o pr) as [[g1 dropped] pr2]. simpl in H1, H2. subst pr2.
-  rewrite (rebuild_stable o pr HS).
+  intros o pr n v. unfold new_trimmed_text. cbv zeta. set (pr1 := rebuild o pr).
+  assert (H1 : forall x, In x (g_nodes (fst (trim_pass1 o pr1))) -> In x (g_nodes (report_graph o pr1 None))).
+  { intros [k w]. unfold trim_pass1. destruct (0 <? o_nodecutoff o); [|auto].
+    match goal with |- context [if ?c then _ else _] => destruct c end; [|auto].
+    simpl fst. unfold report_graph. apply kept_nodes_unchanged_graph_lemma. exact ni_eqb_spec. }
+  destruct (trim_pass1 o pr1) as [g1 dropped]. simpl fst in H1.
   cbn [t_g]. unfold trim_edges. cbn [g_nodes].
   destruct (0 <? o_nodecount o).
   - match goal with |- context [if ?c then _ else _] => destruct c end.
